@@ -1,3 +1,1 @@
 import DmlcModel.Basic
-import DmlcModel.Gen.RecordIO
-import DmlcModel.RecordIO.Model
